@@ -141,9 +141,13 @@ func runC13(c *Ctx) {
 	c.underFact("C13.d valid-connect-only", "(*mqtt.Server).attachClient: Clients.Add only after readConnectionPacket succeeded", add,
 		func(t string) bool { return t == "(*mqtt.Server).readConnectionPacket(s, cl)#1 == nil" }, true, "")
 	c.underFact("C13.d valid-connect-only", "(*mqtt.Server).attachClient: Clients.Add only when validateConnect == CodeSuccess", add,
-		func(t string) bool { return strings.HasPrefix(t, "(*mqtt.Server).validateConnect(") && strings.HasSuffix(t, "== packets.CodeSuccess") }, true, "")
+		func(t string) bool {
+			return strings.HasPrefix(t, "(*mqtt.Server).validateConnect(") && strings.HasSuffix(t, "== packets.CodeSuccess")
+		}, true, "")
 	c.underFact("C13.d valid-connect-only", "(*mqtt.Server).attachClient: Clients.Add only when hooks.OnConnect returned nil", add,
-		func(t string) bool { return strings.HasPrefix(t, "(*mqtt.Hooks).OnConnect(") && strings.HasSuffix(t, "== nil") }, true, "")
+		func(t string) bool {
+			return strings.HasPrefix(t, "(*mqtt.Hooks).OnConnect(") && strings.HasSuffix(t, "== nil")
+		}, true, "")
 	if vc := c.fn("mqtt", "(*Server).validateConnect"); vc != nil {
 		cv := c.call1(vc, "(*packets.Packet).ConnectValidate")
 		good := cv != nil
@@ -345,6 +349,15 @@ func runC14(c *Ctx) {
 		}
 		c.ob("C14.b clean-start-discards", "(*mqtt.Server).inheritClientSession: nothing is copied to the new client on the clean edge", c.pos(cleanRet.Pos()), !copied, "")
 	}
+	// "… whether held by the broker or restored later": a stored subscription without a restored session is not re-installed
+	if ls := c.fn("mqtt", "(*Server).loadSubscriptions"); ls != nil {
+		c.underFact("C14.b clean-start-discards", "(*mqtt.Server).loadSubscriptions: a stored subscription is restored only for a client id whose session was restored", c.call1(ls, fnTopicsSub),
+			func(t string) bool { return strings.HasPrefix(t, fnClientsGet+"(") && strings.HasSuffix(t, "#1") }, true,
+			"records of a clean / expired session left in the store would deliver to the next connection with that id although Session Present is 0")
+	}
+	if lc := c.fn("mqtt", "(*Server).loadClients"); lc != nil {
+		c.underFact("C14.b clean-start-discards", "(*mqtt.Server).loadClients does not register a session that ended with its connection (clean / expiry 0)", c.call1(lc, fnClientsAdd), textEq("φ||"), false, "")
+	}
 	// (c) resume edge
 	for _, r := range returns(f) {
 		if describe(rvs(r)[0]) != "true" {
@@ -439,7 +452,9 @@ func runC15(c *Ctx) {
 		del := c.call1(f, fnClientsDelete)
 		c.underFact("C15.b discard-when", "(*mqtt.Server).clearExpiredClients: only stopped clients are discarded", del, textHas("StopTime", "== 0"), false, "a connected session is never discarded")
 		c.underFact("C15.b discard-when", "(*mqtt.Server).clearExpiredClients: only after disconnected + expiry < now", del,
-			func(t string) bool { return strings.Contains(t, "StopTime") && strings.Contains(t, " + ") && strings.HasSuffix(t, "< dt") }, true, "")
+			func(t string) bool {
+				return strings.Contains(t, "StopTime") && strings.Contains(t, " + ") && strings.HasSuffix(t, "< dt")
+			}, true, "")
 		// expiry = client's interval if v5 and flagged, else server maximum
 		ok := false
 		for _, ins := range instrs(f) {
@@ -537,7 +552,9 @@ func runC16(c *Ctx) {
 	lwt := c.fn("mqtt", "(*Server).sendLWT")
 	c.whoCalls("C16.a will-call-sites", lwt, map[string]string{"(*mqtt.Server).attachClient": "abnormal end of connection", "(*mqtt.Server).processConnect": "second CONNECT is a protocol error"})
 	if f := c.fn("mqtt", "(*Server).attachClient"); f != nil {
-		readErr := func(t string) bool { return strings.HasPrefix(t, "(*mqtt.Client).Read(") && strings.HasSuffix(t, "== nil") }
+		readErr := func(t string) bool {
+			return strings.HasPrefix(t, "(*mqtt.Client).Read(") && strings.HasSuffix(t, "== nil")
+		}
 		c.underFact("C16.a will-call-sites", "(*mqtt.Server).attachClient: sendLWT only when Read ended with an error", c.call1(f, fnSendLWT), readErr, false, "")
 		sts := storesTo(f, "cl.Properties.Will")
 		c.floor("C16.a will cleared on normal disconnect", len(sts), 1)
@@ -568,7 +585,9 @@ func runC16(c *Ctx) {
 	if lwt != nil {
 		// (b)
 		pub := c.call1(lwt, fnPubToSubs)
-		flagZero := func(t string) bool { return strings.HasPrefix(t, "sync/atomic.LoadUint32(cl.Properties.Will.Flag) == 0") }
+		flagZero := func(t string) bool {
+			return strings.HasPrefix(t, "sync/atomic.LoadUint32(cl.Properties.Will.Flag) == 0")
+		}
 		c.underFact("C16.b will-at-most-once", "(*mqtt.Server).sendLWT publishes only while Will.Flag != 0", pub, flagZero, false, "")
 		var clr ssa.Instruction
 		for _, ci := range c.callsNamed(lwt, "sync/atomic.StoreUint32") {
@@ -614,6 +633,16 @@ func runC16(c *Ctx) {
 			del = ci
 		}
 		c.underFact("C16.b will-at-most-once", "(*mqtt.Server).sendDelayedLWT publishes only entries whose delay elapsed", pub, textHas("dt >", ".Expiry"), true, "")
+		// … and every entry whose delay elapsed: from the elapsed edge no path reaches the next entry without publishing
+		for _, b := range f.Blocks {
+			t, _, ok := condOf(b)
+			if !ok || !strings.Contains(t, "dt >") || !strings.Contains(t, ".Expiry") {
+				continue
+			}
+			c.noPath("C16.b will-when-due", "(*mqtt.Server).sendDelayedLWT: an entry whose delay elapsed is always published (whether or not the session record still exists)", f, b.Instrs[len(b.Instrs)-1],
+				func(x ssa.Instruction) bool { _, isNext := x.(*ssa.Next); return isNext || anyReturn(x) }, isNamed(fnPubToSubs), []Assume{{Match: textHas("dt >", ".Expiry"), Truth: true}},
+				"the will is due when its delay elapses or the session ends, whichever is first")
+		}
 		c.ob("C16.b will-at-most-once", "(*mqtt.Server).sendDelayedLWT deletes the entry it published", c.pos(f.Pos()), pub != nil && del != nil && reachableFrom(pub, del) &&
 			dominatedByFact(del, textHas("dt >", ".Expiry"), true), "a delayed will must be published once")
 		if pub != nil && del != nil {
@@ -642,16 +671,18 @@ func init() {
 func runC17(c *Ctx) {
 	aclWrite := func(t string) bool { return strings.HasPrefix(t, fnACL+"(") && strings.HasSuffix(t, ", true)") }
 	aclRead := func(t string) bool { return strings.HasPrefix(t, fnACL+"(") && strings.HasSuffix(t, ", false)") }
-	validPub := func(t string) bool { return strings.HasPrefix(t, "mqtt.IsValidFilter(") && strings.HasSuffix(t, ", true)") }
+	validPub := func(t string) bool {
+		return strings.HasPrefix(t, "mqtt.IsValidFilter(") && strings.HasSuffix(t, ", true)")
+	}
 	inline := []Assume{assumeEq("cl.Net.Inline", false)}
 	// routes: every module function calling a sink directly
 	sinks := []string{fnPubToSubs, fnRetainMsg}
 	routes := map[string]string{
-		"(*mqtt.Server).processPublish":     "client",
-		"(*mqtt.Server).sendLWT":            "client-will",
-		"(*mqtt.Server).sendDelayedLWT":     "client-will-delayed",
-		"(*mqtt.Server).publishSysTopics":   "broker-originated $SYS values",
-		"(*mqtt.Server).retainMessage":      "-",
+		"(*mqtt.Server).processPublish":       "client",
+		"(*mqtt.Server).sendLWT":              "client-will",
+		"(*mqtt.Server).sendDelayedLWT":       "client-will-delayed",
+		"(*mqtt.Server).publishSysTopics":     "broker-originated $SYS values",
+		"(*mqtt.Server).retainMessage":        "-",
 		"(*mqtt.Server).publishToSubscribers": "-",
 	}
 	for _, fn := range c.ModFns {
@@ -748,7 +779,7 @@ func runC17(c *Ctx) {
 		c.floor("C17.d denied reason stores", n, 1)
 	}
 	c.whoCalls("C17.d subscribe-check", c.fn("mqtt", "(*TopicsIndex).Subscribe"), map[string]string{
-		"(*mqtt.Server).processSubscribe":      "checked above",
+		"(*mqtt.Server).processSubscribe":     "checked above",
 		"(*mqtt.Server).inheritClientSession": "re-installs subscriptions of the resumed session, which passed the check when they were made",
 		"(*mqtt.Server).loadSubscriptions":    "restores persisted subscriptions, which passed the check when they were made",
 	})
@@ -842,6 +873,27 @@ func runC19(c *Ctx) {
 		threaded = args[idx]
 		ok, why := chainThreads(call, threaded)
 		c.ob("C19.b chain-threads-result", "(*mqtt.Hooks)."+m+": each hook receives the previous hook's result", c.pos(call.Pos()), ok, why)
+		// a hook's verdict (error) ends the chain and is returned: no later hook can overwrite it
+		if m == "OnPublish" || m == "OnAuthPacket" {
+			errNilT := func(t string) bool { return t == describe(call)+"#1 == nil" || t == "err == nil" }
+			c.noPath("C19.b chain-stops-on-error", "(*mqtt.Hooks)."+m+": after a hook returned an error no further hook is consulted", f, call, isIns(call), nil,
+				[]Assume{{Match: errNilT, Truth: false}}, "a later hook returning nil would overwrite a rejection / ignore verdict")
+			for _, r := range returns(f) {
+				if !reachableFrom(call, r) || !dominatedByFact(r, errNilT, false) {
+					continue
+				}
+				vs := rvs(r)
+				c.ob("C19.b chain-stops-on-error", fmt.Sprintf("(*mqtt.Hooks).%s: the return under %s yields the hook's error", m, guardKey(r)), c.pos(r.Pos()), !isNilConst(vs[len(vs)-1]), "")
+			}
+			// the chain's nil-error return is reached only when no hook reported an error
+			for _, r := range returns(f) {
+				vs := rvs(r)
+				if isNilConst(vs[len(vs)-1]) || describe(vs[len(vs)-1]) == "err" || strings.HasPrefix(describe(vs[len(vs)-1]), "φ") {
+					_, hit := (&PathQuery{Fn: f, From: call, Target: isIns(r), Assume: []Assume{{Match: errNilT, Truth: false}}}).Find()
+					c.ob("C19.b chain-stops-on-error", fmt.Sprintf("(*mqtt.Hooks).%s: the fall-through return is not reachable once a hook returned an error", m), c.pos(r.Pos()), hit == nil || !isNilConst(vs[len(vs)-1]) && false || hit == nil, "")
+				}
+			}
+		}
 		// iteration order: ranges over GetAll()
 		ranged := false
 		for _, ins := range instrs(f) {
